@@ -147,16 +147,16 @@ Proof.
   - apply IH; [lia|]. intros j Hj. apply (Hb (S j)). cbn [map length]. lia.
 Qed.
 
-Lemma xt_all_delegations_length e x : (length (all_delegations e x) <= 8)%nat.
+Lemma xt_all_delegations_length e x : (length (all_delegations e x) <= 12)%nat.
 Proof.
-  unfold all_delegations. change 8%nat with (length VALS).
+  unfold all_delegations. change 12%nat with (length VALS).
   induction VALS as [|v l IH]; cbn [flat_map length]; [lia|].
   rewrite app_length. destruct (delegation e x v); cbn [length]; lia.
 Qed.
 
 Lemma xt_sorted_delegations e x :
   let vals := sort_desc (all_delegations e x) in
-  NoDup (map fst vals) /\ (length vals <= 8)%nat /\
+  NoDup (map fst vals) /\ (length vals <= 12)%nat /\
   (forall v d, In (v, d) vals -> delegation e x v = Some d).
 Proof.
   intros vals. pose proof (stable_sort_perm (fun a b : val * N => snd b <? snd a) (all_delegations e x)) as HP.
@@ -171,7 +171,7 @@ Lemma xt_pick_validator_exec W w h claim msgs :
   pick_validator w A_hub h claim = Some msgs -> hp_underlying (h_params h) = usei ->
   w_env W = w_env w -> DelWf (w_env w) ->
   exists e',
-    Exec W (tag A_hub msgs) (set_env W e') (length msgs) /\ (length msgs <= 8)%nat /\
+    Exec W (tag A_hub msgs) (set_env W e') (length msgs) /\ (length msgs <= 12)%nat /\
     DelWf e' /\
     delegated e' A_hub + claim = delegated (w_env w) A_hub /\ usum msgs = claim /\
     e_unb e' = e_unb (w_env w) ++ map (unb_entry (e_now (w_env w) + e_ut (w_env w))) msgs /\
@@ -265,7 +265,7 @@ Lemma xt_maybe_undelegate_exec W w h h' msgs :
   maybe_undelegate w A_hub h = Some (h', msgs) -> hp_underlying (h_params h) = usei ->
   w_env W = w_env w -> DelWf (w_env w) ->
   exists e',
-    Exec W (tag A_hub msgs) (set_env W e') (length msgs) /\ (length msgs <= 8)%nat /\
+    Exec W (tag A_hub msgs) (set_env W e') (length msgs) /\ (length msgs <= 12)%nat /\
     DelWf e' /\
     delegated e' A_hub + usum msgs = delegated (w_env w) A_hub /\
     e_unb e' = e_unb (w_env w) ++ map (unb_entry (e_now (w_env w) + e_ut (w_env w))) msgs /\
@@ -584,7 +584,7 @@ Lemma xt_und_leg w1 hq h4 msgs :
   forall h0, hp_epoch (h_params hq) = hp_epoch (h_params h0) -> hs_lut (h_state hq) = hs_lut (h_state h0) ->
   exists e3,
     Exec (set_hub w1 h4) (tag A_hub msgs) (set_env (set_hub w1 h4) e3) (length msgs) /\
-    (length msgs <= 8)%nat /\
+    (length msgs <= 12)%nat /\
     h4 = after_receive w1 h0 hq /\
     Undelegated (w_env w1) e3 (if epoch_over w1 h0 then owed hq else 0) /\
     UndelegationFrame (w_env w1) e3 /\
